@@ -140,6 +140,31 @@ theorem getWorker_of_mem' {s : St} (hnd : (s.workers.map (·.wid)).Nodup) {w : W
     (h : w.wid = wid) : getWorker s wid = some w := by
   subst h; exact getWorker_of_mem hnd hw
 
+/-- every listed worker has an exit code (the test of the repaired `__exit__` on a full queue) ⇒ nobody is alive:
+a worker that has not exited is listed -/
+theorem liveCnt_zero_of_all {s : St} (hL : LInv s) (h : s.procs.all (workerExited s) = true) : liveCnt s = 0 := by
+  unfold liveCnt
+  rw [List.countP_eq_zero]
+  intro w hw hp
+  have hne : w.pc ≠ .exited := by simpa using hp
+  have hex := List.all_eq_true.1 h w.wid (hL.listed w hw hne)
+  unfold workerExited at hex
+  rw [getWorker_of_mem hL.nodup hw] at hex
+  exact hne (by simpa using hex)
+
+/-- and conversely -/
+theorem all_exited_of_liveCnt_zero {s : St} (hL : LInv s) (hpr : ∀ wid ∈ s.procs, ∃ w ∈ s.workers, w.wid = wid)
+    (h : liveCnt s = 0) : s.procs.all (workerExited s) = true := by
+  rw [List.all_eq_true]
+  intro wid hwid
+  obtain ⟨w, hw, hww⟩ := hpr wid hwid
+  unfold liveCnt at h
+  rw [List.countP_eq_zero] at h
+  have hpc : w.pc = .exited := by simpa using h w hw
+  unfold workerExited
+  rw [getWorker_of_mem' hL.nodup hw hww]
+  simp [hpc]
+
 theorem capFull_nil (cap : Option Nat) : capFull cap [] = false := by
   cases cap <;> simp [capFull] <;> omega
 
